@@ -36,7 +36,7 @@ ASSUMPTIONS = [
     "the peer's messages are template messages allowed over UDP; the session manager is a stub (no HTTP)",
     "retry budget is the default 10 in half of the runs and 3 in the others",
 ]
-MUST_REACH = {"regions_registered_again_at_the_same_address": 10, "refused_sends_before_good_ones": 30, "packetacks_with_only_appended_acks": 30, "reliable_arrivals": 1000, "duplicate_arrivals": 200, "unreliable_arrivals": 500, "acks_sent_checked": 1000,
+MUST_REACH = {"acks_riding_on_retransmissions": 30, "regions_registered_again_at_the_same_address": 10, "refused_sends_before_good_ones": 30, "packetacks_with_only_appended_acks": 30, "reliable_arrivals": 1000, "duplicate_arrivals": 200, "unreliable_arrivals": 500, "acks_sent_checked": 1000,
               "sends_completed_by_appended_ack": 50, "sends_completed_by_packetack": 50, "budgets_exhausted": 5,
               "region_level_duplicates_checked": 100, "reordered_first_arrivals": 100, "session_level_duplicates_checked": 100, "ids_checked_increasing": 1000, "long_circuit_retransmissions": 100, "sends_of_prenumbered_messages": 50, "sequences_with_fractional_resend_interval": 10}
 
@@ -219,15 +219,19 @@ def _run_sequence(ctx, rng, seed, reuse=None):
         if r < 0.50 and seen_rel_ids:
             # retransmission / reordered duplicate of an earlier reliable packet
             pid = rng.choice(seen_rel_ids)
-            history.append(("dup", pid))
-            feed(peer_packet(pid, True, rng.random() < 0.7))
+            # (a retransmission carries whatever acknowledgements the peer owes at that moment, not those of the first copy)
+            acks = _choose_acks(rng, pending, last_client_id) if rng.random() < 0.5 else []
+            if acks:
+                ctx.count("acks_riding_on_retransmissions")
+            history.append(("dup", pid, tuple(acks)))
+            feed(peer_packet(pid, True, rng.random() < 0.7, acks=acks))
             arrivals[pid] = arrivals.get(pid, 0) + 1
             ctx.count("reliable_arrivals")
             ctx.count("duplicate_arrivals")
             msgs = client_packets()
             _check_ack_sent(ctx, msgs, pid, wit_base, history)
             check_ids(msgs)
-            after_acks(set(), "appended")
+            after_acks(set(acks), "appended")
             continue
         if r < 0.65:
             pid = next_peer_id
